@@ -32,7 +32,7 @@ func falls(list []ast.Stmt) bool {
 		return true
 	}
 	switch s := list[len(list)-1].(type) {
-	case *ast.ReturnStmt:
+	case *ast.ReturnStmt, *ast.BranchStmt:
 		return false
 	case *ast.BlockStmt:
 		return falls(s.List)
@@ -48,8 +48,11 @@ func falls(list []ast.Stmt) bool {
 func hasReturn(n ast.Node) bool {
 	r := false
 	ast.Inspect(n, func(m ast.Node) bool {
-		if _, ok := m.(*ast.ReturnStmt); ok {
+		switch m.(type) {
+		case *ast.ReturnStmt, *ast.BranchStmt:
 			r = true
+		case *ast.FuncLit:
+			return false
 		}
 		return !r
 	})
@@ -96,6 +99,11 @@ func (f *impFn) assigned(nodes ...ast.Node) []string {
 			case *ast.IncDecStmt:
 				set[rootOf(s.X)] = true
 			case *ast.CallExpr:
+				if id, ok := s.Fun.(*ast.Ident); ok {
+					if t := f.lookup(id.Name); t != nil && t.k == "events" {
+						set[id.Name] = true
+					}
+				}
 				if exprText(s.Fun) == "copy" && len(s.Args) > 0 {
 					set[rootOf(s.Args[0])] = true
 				}
@@ -341,10 +349,53 @@ func (f *impFn) simple(s ast.Stmt, prev ast.Stmt, c *ictx) []string {
 		root, nv := f.upd(v.Lhs[0], es, c)
 		f.killGuards(exprText(v.Lhs[0]))
 		return []string{"let " + lname(root) + " := " + nv}
+	case *ast.IncDecStmt:
+		xs, xt := f.expr(v.X, nil, c)
+		if xt.k != "int" && xt.k != "uint64" {
+			p.die(s, "%s on %v", v.Tok, xt)
+		}
+		op := " + 1"
+		if v.Tok == token.DEC {
+			op = " - 1"
+		}
+		val := xs + op
+		if xt.k == "uint64" {
+			val = "(" + xs + " + " + map[bool]string{true: "(2^64 - 1)", false: "1"}[v.Tok == token.DEC] + ") % 2^64"
+		}
+		root, nv := f.upd(v.X, val, c)
+		f.killGuards(exprText(v.X))
+		return []string{"let " + lname(root) + " := " + nv}
 	case *ast.ExprStmt:
 		call, ok := v.X.(*ast.CallExpr)
 		if !ok {
 			p.die(s, "expression statement")
+		}
+		if id, ok := call.Fun.(*ast.Ident); ok {
+			if t := f.lookup(id.Name); t != nil && t.k == "events" {
+				if len(call.Args) != t.n || id.Name != f.recv {
+					p.die(s, "callback call arity")
+				}
+				var as []string
+				for _, a := range call.Args {
+					es, et := f.expr(a, tyInt, c)
+					if et.k != "int" {
+						p.die(a, "callback argument type %v", et)
+					}
+					as = append(as, es)
+				}
+				return []string{"let " + lname(id.Name) + " := " + lname(id.Name) + " ++ [(" + strings.Join(as, ", ") + ")]"}
+			}
+		}
+		if se, ok := call.Fun.(*ast.SelectorExpr); ok {
+			if id, ok := se.X.(*ast.Ident); ok {
+				if t := f.lookup(id.Name); t != nil && t.k == "waitgroup" {
+					switch se.Sel.Name {
+					case "Add", "Done", "Wait":
+						return []string{"-- " + exprText(call.Fun) + "(…): synchronisation only, no effect on the recorded events"}
+					}
+					p.die(s, "sync.WaitGroup method %s", se.Sel.Name)
+				}
+			}
 		}
 		if exprText(call.Fun) == "copy" && len(call.Args) == 2 {
 			okPrev := false
@@ -496,7 +547,52 @@ func (f *impFn) seq(list []ast.Stmt, k *kont, c *ictx, ind string, prev ast.Stmt
 			ind + pat,
 		}
 		return strings.Join(out, "\n")
-	case *ast.BranchStmt, *ast.SwitchStmt, *ast.ForStmt, *ast.GoStmt, *ast.SelectStmt, *ast.TypeSwitchStmt, *ast.LabeledStmt, *ast.SendStmt, *ast.IncDecStmt:
+	case *ast.ForStmt:
+		return f.forStmt(v, rest, k, c, ind, top)
+	case *ast.BranchStmt:
+		if v.Tok == token.BREAK && v.Label == nil && c.brk != nil {
+			return ind + c.brk()
+		}
+		p.die(s, "%s outside the subset", v.Tok)
+	case *ast.GoStmt:
+		// `go func() { … }()`: the closure body is run at the launch point (what is recorded is the ORDER OF LAUNCHES and the
+		// arguments handed to the callback); it may only use variables that cannot change after the launch
+		fl, ok := v.Call.Fun.(*ast.FuncLit)
+		if !ok || len(v.Call.Args) != 0 || len(fl.Type.Params.List) != 0 || (fl.Type.Results != nil && len(fl.Type.Results.List) != 0) {
+			p.die(s, "go statement form (only `go func() { … }()`)")
+		}
+		if hasReturn(fl.Body) {
+			p.die(s, "return / break inside a goroutine body")
+		}
+		if len(f.assigned(fl.Body)) > 0 {
+			for _, a := range f.assigned(fl.Body) {
+				if t := f.lookup(a); t.k != "events" && t.k != "waitgroup" {
+					p.die(s, "goroutine body assigns the captured variable %s", a)
+				}
+			}
+		}
+		for _, x := range f.freeVars(fl.Body) {
+			t := f.lookup(x)
+			if t.k == "events" || t.k == "waitgroup" {
+				continue
+			}
+			if c.inLoop {
+				d := -1
+				for i := len(f.scopes) - 1; i >= 0; i-- {
+					if _, ok := f.scopes[i][x]; ok {
+						d = i
+						break
+					}
+				}
+				if d < c.loopDepth {
+					p.die(s, "goroutine captures %s, which is not declared inside the same loop iteration", x)
+				}
+			}
+			f.checkNotAssignedAfter(v, x)
+		}
+		return ind + "-- go func() { … }(): launched here; events are recorded in launch order\n" +
+			f.seq(append([]ast.Stmt{fl.Body}, rest...), k, c, ind, nil, top)
+	case *ast.SwitchStmt, *ast.SelectStmt, *ast.TypeSwitchStmt, *ast.LabeledStmt, *ast.SendStmt:
 		p.die(s, "statement outside the subset (%T)", s)
 	}
 	lines := f.simple(s, prev, c)
@@ -793,4 +889,202 @@ func (f *impFn) rangeStmt(v *ast.RangeStmt, rest []ast.Stmt, k *kont, c *ictx, i
 		return ind + "let " + st + " := " + callTxt + "\n" + f.seq(rest, k, c, ind, v, top)
 	}
 	return ind + "match " + callTxt + " with\n" + ind + "| (" + st + ", some ret_) => " + c.ret("ret_") + "\n" + ind + "| (" + st + ", none) =>\n" + f.seq(rest, k, c, ind, v, top)
+}
+
+// counting pattern `i < N` / `i <= N` with exactly one `i++` (post statement or top level of the body), N not assigned in the loop:
+// the number of iterations is known at loop entry
+func (f *impFn) countingFuel(v *ast.ForStmt, c *ictx) string {
+	be, ok := v.Cond.(*ast.BinaryExpr)
+	if !ok || (be.Op != token.LSS && be.Op != token.LEQ) {
+		return ""
+	}
+	id, ok := be.X.(*ast.Ident)
+	if !ok {
+		return ""
+	}
+	incs, other := 0, false
+	isInc := func(s ast.Stmt) bool {
+		d, ok := s.(*ast.IncDecStmt)
+		return ok && d.Tok == token.INC && exprText(d.X) == id.Name
+	}
+	if v.Post != nil && isInc(v.Post) {
+		incs++
+	} else if v.Post != nil {
+		for _, a := range f.assigned(v.Post) {
+			other = other || a == id.Name
+		}
+	}
+	for _, s := range v.Body.List {
+		if isInc(s) {
+			incs++
+			continue
+		}
+		for _, a := range f.assigned(s) {
+			other = other || a == id.Name
+		}
+		ast.Inspect(s, func(n ast.Node) bool {
+			if b, ok := n.(*ast.BranchStmt); ok && b.Tok == token.CONTINUE {
+				other = true
+			}
+			return true
+		})
+	}
+	if incs != 1 || other {
+		return ""
+	}
+	bound := f.freeVars(be.Y)
+	for _, a := range f.assigned(v.Body, v.Post) {
+		for _, b := range bound {
+			if a == b {
+				return ""
+			}
+		}
+	}
+	ns, nt := f.expr(be.Y, tyInt, c)
+	is, it := f.expr(be.X, nil, c)
+	if !nt.eq(it) || (it.k != "int" && it.k != "uint64") {
+		return ""
+	}
+	plus := ""
+	if be.Op == token.LEQ {
+		plus = " + 1"
+	}
+	if it.k == "uint64" {
+		return "(" + parenImp(ns) + plus + " - " + parenImp(is) + ")"
+	}
+	return "(" + parenImp(ns) + plus + " - " + parenImp(is) + ").toNat"
+}
+
+func (f *impFn) forStmt(v *ast.ForStmt, rest []ast.Stmt, k *kont, c *ictx, ind string, top bool) string {
+	p := f.p
+	depth0 := len(f.scopes)
+	f.push()
+	var pre []string
+	if v.Init != nil {
+		pre = f.simple(v.Init, nil, c)
+	}
+	var nodes []ast.Node
+	nodes = append(nodes, v.Body)
+	if v.Post != nil {
+		nodes = append(nodes, v.Post)
+	}
+	S := f.assigned(nodes...)
+	withRet := false
+	ast.Inspect(v.Body, func(n ast.Node) bool {
+		switch n.(type) {
+		case *ast.ReturnStmt:
+			withRet = true
+		case *ast.FuncLit:
+			return false
+		}
+		return true
+	})
+	if len(S) == 0 && !withRet {
+		p.die(v, "loop without effect on live variables")
+	}
+	fuel := ""
+	if v.Cond != nil {
+		fuel = f.countingFuel(v, c)
+	}
+	if fuel == "" {
+		fuel = fmt.Sprintf("fuel%d", len(f.fuels)+1)
+		f.fuels = append(f.fuels, fuel)
+	}
+	inS := map[string]bool{}
+	for _, s := range S {
+		inS[s] = true
+	}
+	all := append([]ast.Node{}, nodes...)
+	if v.Cond != nil {
+		all = append(all, v.Cond)
+	}
+	var ro []string
+	for _, x := range f.freeVars(all...) {
+		if !inS[x] {
+			ro = append(ro, x)
+		}
+	}
+	f.nloop++
+	name := fmt.Sprintf("%s.loop%d", f.name, f.nloop)
+	st := impTuple(lnames(S))
+	u := &iuses{}
+	const hole = "@@LOOPARGS@@"
+	exit := st
+	if withRet {
+		exit = "(" + st + ", none)"
+	}
+	cc := &ictx{inLoop: true, uses: u, loopDepth: len(f.scopes),
+		ret: func(vals string) string { return "(" + st + ", some " + parenImp(vals) + ")" },
+		brk: func() string { return exit }}
+	ss, sg := f.snap()
+	f.nonNil = map[string]bool{}
+	cond := "true"
+	if v.Cond != nil {
+		cs, ct := f.expr(v.Cond, tyBool, cc)
+		if ct.k != "bool" {
+			p.die(v, "loop condition type")
+		}
+		cond = cs
+	}
+	cc.fall = func() string {
+		post := ""
+		if v.Post != nil {
+			sv, sn := f.snap()
+			post = strings.Join(f.simple(v.Post, nil, cc), "; ") + "; "
+			f.restore(sv, sn)
+		}
+		return post + name + hole + " fuel_ " + strings.Join(lnames(S), " ")
+	}
+	f.push()
+	body := f.seq(v.Body.List, nil, cc, "      ", nil, false)
+	f.restore(ss, sg)
+	roArgs := ""
+	var roParams []string
+	for _, x := range ro {
+		if t := f.lookup(x); t.k == "waitgroup" {
+			continue
+		}
+		roArgs += " " + lname(x)
+		roParams = append(roParams, "("+lname(x)+" : "+p.lty(f.lookup(x), true)+")")
+	}
+	if u.W || u.H {
+		// (same convention as range loops)
+	}
+	body = strings.ReplaceAll(body, hole, whArgs(*u)+roArgs)
+	var sTys []string
+	for _, s := range S {
+		sTys = append(sTys, p.ltyA(f.lookup(s), true))
+	}
+	resTy := strings.Join(sTys, " × ")
+	if len(S) == 0 {
+		resTy = "Unit"
+	}
+	if withRet {
+		if len(S) > 1 {
+			resTy = "(" + resTy + ")"
+		}
+		resTy += " × Option (" + f.valTy() + ")"
+	}
+	sig := strings.Join(append([]string{"Nat"}, sTys...), " → ")
+	pats := strings.Join(append([]string{""}, lnames(S)...), ", ")
+	condTxt := "for " + map[bool]string{true: exprText(v.Cond), false: ""}[v.Cond != nil]
+	def := fmt.Sprintf("/-- %s, line %d: `%s { … }`; the first argument bounds the number of iterations -/\ndef %s%s%s : %s → %s\n  | 0%s => %s\n  | fuel_ + 1%s =>\n    if %s then\n%s\n    else\n    %s\n",
+		f.name, f.lineNo(v), strings.TrimSpace(condTxt), name, whParams(*u), strings.Join(append([]string{""}, roParams...), " "), sig, resTy, pats, exit, pats, cond, body, exit)
+	f.helpers = append(f.helpers, def)
+	c.uses.W = c.uses.W || u.W
+	c.uses.H = c.uses.H || u.H
+	callTxt := name + whArgs(*u) + roArgs + " " + fuel + " " + strings.Join(lnames(S), " ")
+	// the loop variable of the init statement goes out of scope; the other state variables keep their new values
+	f.popTo(depth0)
+	for _, s := range S {
+		f.killGuards(s)
+	}
+	head := ""
+	if len(pre) > 0 {
+		head = indent(pre, ind) + "\n"
+	}
+	if !withRet {
+		return head + ind + "let " + st + " := " + callTxt + "\n" + f.seq(rest, k, c, ind, v, top)
+	}
+	return head + ind + "match " + callTxt + " with\n" + ind + "| (" + st + ", some ret_) => " + c.ret("ret_") + "\n" + ind + "| (" + st + ", none) =>\n" + f.seq(rest, k, c, ind, v, top)
 }
